@@ -91,6 +91,7 @@ func corr(seed uint64, n int) {
 	for i := 0; i < n; i++ {
 		emit(&id, g.history(true))
 	}
+	corrExtra(&id, hx.NewRng(seed^0xe1), n/4)
 	// malformed / out-of-scope stream
 	g2 := &gen{r: hx.NewRng(seed ^ 0xc19c19)}
 	for i := 0; i < n; i++ {
@@ -660,5 +661,6 @@ func search(seed uint64, n int) {
 	for i := 0; i < n; i++ {
 		evalHistory(g.history(true))
 	}
+	outOfScope()
 	fmt.Fprintf(out, "EVALS\t%d\n", evals)
 }
